@@ -190,12 +190,12 @@ Proof.
   - cbn [step] in H1. destruct (negb (inh s)) eqn:Ei; [discriminate|]. destruct b.
     + destruct (tick_later_ok f p Hf Hp s HI) as [s3 [o3 [Ht [_ [Hn3 [_ [_ [Hin _]]]]]]]].
       rewrite Ht in H1. inversion H1; subst s1 o. clear H1.
-      assert (Hn : now (mk_st (has s3) (next s3) (pend s3) (now s3) false) = now s) by exact Hn3.
+      assert (Hn : now (mk_st (has s3) (next s3) (pend s3) (now s3) false (hdl s3)) = now s) by exact Hn3.
       rewrite <- Hn. rewrite (IH _ _ HI1 H3 Hc), andb_true_r.
       apply (next_edge_from c _ s' r HI1); [|exact H3|exact Hc].
       cbn [now pend]. rewrite Hn3. exact Hin.
     + inversion H1; subst s1 o. clear H1.
-      change (now s) with (now (mk_st (has s) (next s) (pend s) (now s) false)).
+      change (now s) with (now (mk_st (has s) (next s) (pend s) (now s) false (hdl s))).
       apply (IH _ _ HI1 H3 Hc).
 Qed.
 
